@@ -542,7 +542,8 @@ def c11(ctx):
 def c19(ctx):
     ctx.rule = ("M: SerFuzz.tla enumerates every tag/value stream of length <= L over all tag bytes (plus unknown ones) and hostile values "
                 "(0, 1, n-1, n, n+1, negative, 2^56-1, 2^63, 2^64-1, arbitrary tag words behind the flagged-float tag) for every declared tape "
-                "size 0..4, extending only prefixes the specified decoder has not rejected; invariant: whatever the specified decoder "
+                "size 0..5, grown from the empty stream and from the well-formed openings root+object / root+array, extending only prefixes "
+                "the specified decoder has not rejected; invariant: whatever the specified decoder "
                 "accepts is Safe (all pointers in bounds and forward, end tags intact, NOP skips >= 1). G: every stream (also with its "
                 "value stream truncated) is framed as a blob (uncompressed, S2, zstd) and fed to the real Deserialize under recover and a "
                 "watchdog; on success every traversal, lookup, bulk accessor and marshal call is executed. V: every truncation, single-bit "
@@ -550,7 +551,7 @@ def c19(ctx):
                 "(declared sections <= 16 bytes, zstd/S2 payloads announcing 1 GiB .. 2^64-1 bytes) under an 8 GiB address-space limit. "
                 "Non-trivial = the real decoder accepted the stream / the mutation left the framing parseable.")
     q = quick(ctx)
-    r = ctx.tlc("SerFuzz", consts={"MaxLen": 3 if q else 4, "MaxTape": 4 if q else 5}, dump="states", label="adversarial streams", timeout=3000)
+    r = ctx.tlc("SerFuzz", consts={"MaxLen": 3 if q else 4, "MaxTape": 5, "SeedExtra": 2 if q else 3}, dump="states", label="adversarial streams", timeout=3000)
     fuzz_run(ctx, ["g-serfuzz", "-dump", r["dump"], "-expect", str(r["distinct"]), "-property", "C19"], "C19")
     os.remove(r["dump"])
     fuzz_run(ctx, ["v-serfuzz", "-seed", str(ctx.seed), "-docs", "10" if q else "60", "-property", "C19"], "C19")
